@@ -4,6 +4,8 @@
 //!
 //!   ca_  : blake3.c + dispatch + portable, -DBLAKE3_TESTING, Unix assembly kernels
 //!   ci_  : same C files, C intrinsics kernels (sse2/sse41/avx2/avx512 .c files)
+//!   cr_/cri_ : ca_/ci_ with -DNDEBUG (release builds)
+//!   cn1_..cn5_ : ci_ with BLAKE3_NO_SSE41 / NO_AVX512 / NO_AVX512+NO_AVX2 / all four NO_* (portable only) / NO_SSE2
 //!   ct_  : ca_ with -DBLAKE3_USE_TBB; the parallel-join seam is implemented by the harness
 //!   w64_ : the four *_windows_gnu.S files assembled to ELF (Win64 calling convention)
 use std::path::{Path, PathBuf};
@@ -112,6 +114,22 @@ fn main() {
         ("blake3_avx512.c", vec![t, "-mavx512f", "-mavx512vl"]),
     ];
     variant(&out_dir, &cdir, "ci_", &ci, &[]);
+    // release-style builds (-DNDEBUG: assert() compiles to nothing) of both kernel families
+    let nd = "-DNDEBUG";
+    let mut cr = vec![("blake3.c", vec![t, nd]), ("blake3_dispatch.c", vec![t, nd]), ("blake3_portable.c", vec![t, nd])];
+    unix_asm(&mut cr);
+    variant(&out_dir, &cdir, "cr_", &cr, &[]);
+    let cri: Vec<(&str, Vec<&str>)> = ci.iter().map(|(f, fl)| (*f, fl.iter().copied().chain([nd]).collect())).collect();
+    variant(&out_dir, &cdir, "cri_", &cri, &[]);
+    // C intrinsics builds with the documented BLAKE3_NO_* switches (other dispatch and fallback code is compiled)
+    let no = |defs: &[&'static str], skip: &[&str]| -> Vec<(&'static str, Vec<&'static str>)> {
+        ci.iter().filter(|(f, _)| !skip.contains(f)).map(|(f, fl)| (*f, fl.iter().copied().chain(defs.iter().copied()).collect())).collect()
+    };
+    variant(&out_dir, &cdir, "cn1_", &no(&["-DBLAKE3_NO_SSE41"], &["blake3_sse41.c"]), &[]);
+    variant(&out_dir, &cdir, "cn2_", &no(&["-DBLAKE3_NO_AVX512"], &["blake3_avx512.c"]), &[]);
+    variant(&out_dir, &cdir, "cn3_", &no(&["-DBLAKE3_NO_AVX512", "-DBLAKE3_NO_AVX2"], &["blake3_avx512.c", "blake3_avx2.c"]), &[]);
+    variant(&out_dir, &cdir, "cn4_", &no(&["-DBLAKE3_NO_AVX512", "-DBLAKE3_NO_AVX2", "-DBLAKE3_NO_SSE41", "-DBLAKE3_NO_SSE2"], &["blake3_avx512.c", "blake3_avx2.c", "blake3_sse41.c", "blake3_sse2.c"]), &[]);
+    variant(&out_dir, &cdir, "cn5_", &no(&["-DBLAKE3_NO_SSE2"], &["blake3_sse2.c"]), &[]);
     // ct_
     let tbb = "-DBLAKE3_USE_TBB";
     let mut ct = vec![("blake3.c", vec![t, tbb]), ("blake3_dispatch.c", vec![t, tbb]), ("blake3_portable.c", vec![t, tbb])];
